@@ -17,7 +17,7 @@ import attr
 import six
 
 
-from cryptodatahub.common.algorithm import Authentication, Hash, NamedGroup
+from cryptodatahub.common.algorithm import Authentication, Hash, NamedGroup, Signature
 from cryptodatahub.common.exception import InvalidValue
 from cryptodatahub.common.key import (
     PublicKey,
@@ -346,8 +346,13 @@ class SshHostKeyEDDSABase(SshHostKeyBase):
     def _parse_host_key(cls, parser):
         parser.parse_bytes('key_data', 4)
 
+        if parser['host_key_algorithm'].value.signature == Signature.ED448:
+            curve_type = NamedGroup.CURVE448
+        else:
+            curve_type = NamedGroup.CURVE25519
+
         public_key = PublicKey.from_params(PublicKeyParamsEddsa(
-            curve_type=NamedGroup.CURVE25519,
+            curve_type=curve_type,
             key_data=parser['key_data'],
         ))
 
